@@ -37,7 +37,7 @@ ASSUMPTIONS = [
     "numba, numpy, moptipy are trusted",
     "seeded search: a clean batch is evidence, not proof",
 ]
-FAULT_KINDS = ["same_name_other_instance", "decode_wrong_multiset", "scribble_dest:extreme", "scribble_dest:other_packing",
+FAULT_KINDS = ["caller_reuses_item_matrix", "same_name_other_instance", "decode_wrong_multiset", "scribble_dest:extreme", "scribble_dest:other_packing",
                "scribble_dest:blocking", "scribble_dest:random",
                "scribble_scratch:extreme", "scribble_scratch:inverted",
                "scribble_scratch:wide", "scribble_scratch:random",
@@ -107,6 +107,9 @@ def generate(rng: random.Random, batch: dict, depth: int = 0) -> dict:
 
 def _generate(rng: random.Random, batch: dict) -> dict:
     inst = packgen.gen_instance(rng, big=batch.get("big", False))
+    if "resource" not in inst and rng.random() < 0.04:
+        inst["caller"] = {"src": rng.choice(["auto", "auto", "int64"]),
+                          "reuse": rng.choice(["scale", "zero"])}
     items = packgen.resolve_items(inst)
     encoder = 1 if rng.random() < 0.4 else 2
     pool = 1 if rng.random() < 0.7 else 2
@@ -119,7 +122,8 @@ def _generate(rng: random.Random, batch: dict) -> dict:
     history: list = []
     faults = batch.get("faults", False)
     p_fault = rng.choice([0.15, 0.3, 0.5]) if faults else 0.0
-    enabled = [k for k in FAULT_KINDS if k != "same_name_other_instance"
+    enabled = [k for k in FAULT_KINDS if k not in (
+        "same_name_other_instance", "caller_reuses_item_matrix")
                and rng.random() < 0.7] if faults else []
     while len([o for o in ops if o["op"] == "decode"]) < n_ops:
         if enabled and rng.random() < p_fault:
@@ -262,6 +266,11 @@ def _execute_one(doc: dict, name: str) -> dict:
     inst = packgen.build_instance(doc["inst"], name)
     W, H = int(inst.bin_width), int(inst.bin_height)
     items = [[int(v) for v in row] for row in inst]
+    if doc["inst"].get("caller"):
+        # judged against what was handed to the constructor, not against an
+        # instance that may share the caller's (re-used) buffer
+        core.bump(res["faults"], "caller_reuses_item_matrix")
+        items = [[int(v) for v in row] for row in doc["inst"]["items"]]
     n_items = int(inst.n_items)
     inst_digest = core.digest([W, H, items])[:16]
     space = PackingSpace(inst)
